@@ -361,6 +361,8 @@ theorem loadXbC_pot (d : Bytes) (sauce : Option (Nat × Nat)) :
         split
         · exact pot_fail
         · apply Pot.bind_le (pot_lift (rd_sat (by omega))) (by somega) (by somega) (by somega); intro flags _
+          split
+          · exact pot_fail
           apply Pot.bind_le (pot_lift (xbPalette_sat d _ _ (by omega))) (by somega) (by somega) (by somega); intro o1 ho1
           apply Pot.bind_le (pot_lift (xbFonts_sat d o1 _ _ _ ho1)) (by somega) (by somega) (by somega); intro o2 ho2
           apply Pot.bind_le (pot_spend (o2 - Xb.headerSize)) (by somega) (by somega) (by somega); intro _ _
